@@ -1,4 +1,5 @@
 import Uft.Lemmas.NonLocal
+import Uft.Gen.PltTables
 /-
 C11 — Non-local control flow keeps shadow stack and real stack in step.
 Property theorems only; the model is Uft/Model/NonLocal.lean, the invariants
@@ -226,5 +227,126 @@ def excPltOps : List Op :=
 theorem c11_prefix_exc_plt_witness :
     (run { Fix.all with excPlt := false } M.init excPltOps).sh.dead = true ∧
     (run Fix.all M.init excPltOps).sh.dead = false ∧ (run Fix.all M.init excPltOps).last = 1002 := by decide
+
+/-! ### the special-function tables of libmcount/plthook.c
+
+libmcount recognises setjmp, longjmp, vfork, the exception entry point, … BY NAME
+(`setup_dynsym_indexes`).  `Uft.Gen.PltTables` is regenerated from libmcount/plthook.c, libmcount/wrap.c,
+libmcount/internal.h and utils/fstack.c on every run (translators/c11_plttables.py); the theorems below
+state over the regenerated lists what the model assumes (`Sym`, `Sym.flushes`) and what the property needs:
+every entry point a program can bind for a jump is treated as a jump AND force-flushed (the ENTRY record
+of the jump and of the abandoned callers is written before the jump discards them — "marks the jump"),
+and replay's fix-up knows the name.  A table that loses a name breaks the theorem that names it. -/
+namespace Tables
+open Uft.Gen.PltTables
+
+/-- what `__plthook_entry` does with a dynamic symbol of this name, in the order of the code: a skip
+    symbol is left alone; then the else-if chain setjmp / longjmp / vfork / … / except acts on the first
+    flag that is set; a symbol that is only in flush_syms is flushed -/
+def symOfName (n : String) : Sym :=
+  if skip_syms.contains n then .skip
+  else if setjmp_syms.contains n then .setjmp
+  else if longjmp_syms.contains n then .longjmp
+  else if vfork_syms.contains n then .vfork
+  else if except_syms.contains n then .except
+  else if flush_syms.contains n then .flush
+  else .plain
+
+/-- every name in any of the tables -/
+def allNames : List String :=
+  skip_syms ++ setjmp_syms ++ longjmp_syms ++ vfork_syms ++ dlsym_syms ++ flush_syms ++ except_syms ++ resolve_syms
+
+/-- the entry points glibc exports for a jump: longjmp, _longjmp (BSD), siglongjmp, and __longjmp_chk, which
+    all three become under -D_FORTIFY_SOURCE with optimisation -/
+def glibcJumpNames : List String := ["longjmp", "_longjmp", "siglongjmp", "__longjmp_chk"]
+/-- the entry points for arming a jmp_buf: setjmp, _setjmp (what the setjmp macro calls), sigsetjmp,
+    __sigsetjmp (what the sigsetjmp macro calls) -/
+def glibcSetjmpNames : List String := ["setjmp", "_setjmp", "sigsetjmp", "__sigsetjmp"]
+/-- finding C11-LONGJMP-ALIAS: names of `glibcJumpNames` that the tables of /repo lack as found -/
+def jumpNamesMissingAsFound : List String := ["_longjmp"]
+/-- calls that end the process image, start a second one, or come back twice: the pending records must
+    be written before them -/
+def noReturnNames : List String :=
+  ["fork", "vfork", "daemon", "exit", "execl", "execlp", "execle", "execv", "execve", "execvp", "execvpe",
+   "fexecve", "posix_spawn", "posix_spawnp"]
+/-- the exception entry points libmcount interposes itself (libmcount/wrap.c) -/
+def exceptionWrappers : List String :=
+  ["__cxa_throw", "__cxa_rethrow", "_Unwind_Resume", "__cxa_begin_catch", "__cxa_end_catch"]
+
+/-- is the table set complete for the jumps (the full statement; false while C11-LONGJMP-ALIAS is open)?
+    checks/c11.py reads it through its own copy of the lists and confirms it on the implementation. -/
+def jumpNamesComplete : Bool := glibcJumpNames.all fun n => longjmp_syms.contains n && flush_syms.contains n
+end Tables
+
+open Uft.Gen.PltTables Tables in
+/-- **Every symbol that is treated as a longjmp is force-flushed**: its ENTRY record and the ENTRY records
+    of the callers it abandons are written before the jump (this is the model's `Sym.longjmp.flushes`). -/
+theorem c11_tables_longjmp_flushed : ∀ n ∈ longjmp_syms, n ∈ flush_syms := by decide
+
+open Uft.Gen.PltTables Tables in
+/-- … and so is vfork (the child runs on the parent's shadow stack) -/
+theorem c11_tables_vfork_flushed : ∀ n ∈ vfork_syms, n ∈ flush_syms := by decide
+
+open Uft.Gen.PltTables Tables in
+/-- FULL STATEMENT (kept visible): `∀ n ∈ glibcJumpNames, n ∈ longjmp_syms ∧ n ∈ flush_syms ∧ n ∈ fixup_syms`.
+    Proved for every name except the ones of finding C11-LONGJMP-ALIAS (`_longjmp`, which libmcount takes
+    for an ordinary function: the program then returns from `_longjmp` into the frame that called it);
+    the statement keeps holding when the tables gain the missing name. -/
+theorem c11_tables_jump_names_partial :
+    ∀ n ∈ glibcJumpNames, n ∉ jumpNamesMissingAsFound → n ∈ longjmp_syms ∧ n ∈ flush_syms ∧ n ∈ fixup_syms := by
+  decide
+
+open Uft.Gen.PltTables Tables in
+/-- every way of arming a jmp_buf is a setjmp symbol, and replay's fix-up knows it -/
+theorem c11_tables_setjmp_names : ∀ n ∈ glibcSetjmpNames, n ∈ setjmp_syms ∧ n ∈ fixup_syms := by decide
+
+open Uft.Gen.PltTables Tables in
+/-- vfork is in both its tables (special handling and forced flush) and known to replay -/
+theorem c11_tables_vfork_names : "vfork" ∈ vfork_syms ∧ "vfork" ∈ flush_syms ∧ "vfork" ∈ fixup_syms := by decide
+
+open Uft.Gen.PltTables Tables in
+/-- the unwinder's entry point restores the return addresses (`except_syms`), and the exception entry
+    points that libmcount wraps itself are exported by wrap.c and left alone by the PLT hook (`skip_syms`) -/
+theorem c11_tables_exception_names :
+    "_Unwind_RaiseException" ∈ except_syms ∧ ∀ n ∈ exceptionWrappers, n ∈ wrappers ∧ n ∈ skip_syms := by decide
+
+open Uft.Gen.PltTables Tables in
+/-- fork / vfork / daemon / exit / exec* / posix_spawn* are force-flushed; the exec family and
+    pthread_exit are resolved by hand (they never return to plthook_exit) -/
+theorem c11_tables_noreturn_flushed :
+    (∀ n ∈ noReturnNames, n ∈ flush_syms) ∧ "pthread_exit" ∈ resolve_syms ∧ "pthread_exit" ∈ wrappers := by decide
+
+open Uft.Gen.PltTables Tables in
+/-- the model's view of a symbol agrees with the tables: for every name of any table that the hook does
+    not skip, the flush the model performs for its kind (`Sym.flushes`: longjmp, vfork and the flush-only
+    symbols) is exactly membership in flush_syms -/
+theorem c11_tables_model_flush_agrees :
+    ∀ n ∈ allNames, symOfName n ≠ .skip → (symOfName n).flushes = flush_syms.contains n := by decide
+
+open Uft.Gen.PltTables Tables in
+/-- the tables of the else-if chain do not overlap (only the first flag of the chain acts), none of them
+    overlaps skip_syms (a skipped symbol is never hooked), each table is attached to its own flag, and
+    setjmp is tested before longjmp -/
+theorem c11_tables_chain_disjoint :
+    (setjmp_syms.all fun n => !longjmp_syms.contains n && !vfork_syms.contains n && !except_syms.contains n &&
+      !skip_syms.contains n) = true ∧
+    (longjmp_syms.all fun n => !vfork_syms.contains n && !except_syms.contains n && !skip_syms.contains n) = true ∧
+    (vfork_syms.all fun n => !except_syms.contains n && !skip_syms.contains n) = true ∧
+    (except_syms.all fun n => !skip_syms.contains n) = true ∧
+    setup.contains (setjmp_syms, "PLT_FL_SETJMP") = true ∧ setup.contains (longjmp_syms, "PLT_FL_LONGJMP") = true ∧
+    setup.contains (vfork_syms, "PLT_FL_VFORK") = true ∧ setup.contains (flush_syms, "PLT_FL_FLUSH") = true ∧
+    setup.contains (except_syms, "PLT_FL_EXCEPT") = true ∧ setup.contains (skip_syms, "PLT_FL_SKIP") = true ∧
+    entryChain.take 3 = ["PLT_FL_SETJMP", "PLT_FL_LONGJMP", "PLT_FL_VFORK"] ∧
+    entryTests.take 2 = ["PLT_FL_SKIP", "PLT_FL_FLUSH"] := by decide
+
+open Uft.Gen.PltTables Tables in
+/-- replay's fix-up table knows every symbol the hooks treat as setjmp, longjmp or vfork (otherwise the
+    second return of a setjmp, or the child of a vfork, would be shown at a wrong depth) -/
+theorem c11_tables_replay_knows_jumps :
+    ∀ n ∈ setjmp_syms ++ longjmp_syms ++ vfork_syms, n ∈ fixup_syms := by decide
+
+open Uft.Gen.PltTables Tables in
+/-- the fortified longjmp gets both flags -/
+example : flagsOf "__longjmp_chk" = ["PLT_FL_LONGJMP", "PLT_FL_FLUSH"] := by decide
 
 end Uft.NonLocal
